@@ -357,6 +357,15 @@ func (t *Tree) WalkDeleted(path []string, condition func(interface{}) bool, f fu
 	}
 }
 
+// lockedDelete is internalDelete on a node below the root, under that node's
+// own write lock: nodes and leaves handed out earlier (Get, GetLeaf, VisitFunc)
+// may be used concurrently through their own lock only.
+func (t *Tree) lockedDelete(subpath []string, condition func(interface{}) bool, f func(interface{}), retDeletedPaths bool) (bool, [][]string) {
+	defer t.mu.Unlock()
+	t.mu.Lock()
+	return t.internalDelete(subpath, condition, f, retDeletedPaths)
+}
+
 // internalDelete removes nodes recursively that match subpath and satisfy
 // function condition. It also calls function f on every removed leaf. It
 // returns true if the current node is to be removed from the parent and
@@ -375,7 +384,7 @@ func (t *Tree) internalDelete(subpath []string, condition func(interface{}) bool
 			// progeny leaves.
 			var allLeaves [][]string
 			for k, v := range b {
-				del, leaves := v.internalDelete(subpath, condition, f, retDeletedPaths)
+				del, leaves := v.lockedDelete(subpath, condition, f, retDeletedPaths)
 				if retDeletedPaths {
 					leaf := []string{k}
 					for _, l := range leaves {
@@ -407,7 +416,7 @@ func (t *Tree) internalDelete(subpath []string, condition func(interface{}) bool
 	if b, ok := t.leafBranch.(branch); ok {
 		// Continue to recurse on subpath while it matches nodes in the Tree.
 		if br := b[subpath[0]]; br != nil {
-			delBr, allLeaves := br.internalDelete(subpath[1:], condition, f, retDeletedPaths)
+			delBr, allLeaves := br.lockedDelete(subpath[1:], condition, f, retDeletedPaths)
 			if retDeletedPaths {
 				leaf := []string{subpath[0]}
 				// Prepend branch node name to all progeny leaves of branch.
